@@ -227,9 +227,26 @@ func H_C07_countersignature() {
 	csig := rs.sign(tbs)
 	cs := nnArray([]*vNodeT{cprot, cunprot, nnBstr(csig, vWidth("csigw", uint64(len(csig))))}, 0)
 	var csVal *vNodeT = cs
-	list := c07Pick("list", 2, 4) == 1
+	// single object, or a list of 1..3 (thorough: ..5) countersignatures with the peer's one at a symbolic position
+	maxList := 3
+	if vTier() == 1 {
+		maxList = 5
+	}
+	listLen := c07Pick("list", maxList+1, 4)
+	list := listLen > 0
+	pos := 0
 	if list {
-		csVal = nnArray([]*vNodeT{cs}, vWidth("listw", 1))
+		pos = vChoose("list.pos", listLen)
+		var elems []*vNodeT
+		for i := 0; i < listLen; i++ {
+			if i == pos {
+				elems = append(elems, cs)
+			} else {
+				ob := vBlobN("other.sig"+vItoa(i), 1, 64)
+				elems = append(elems, nnArray([]*vNodeT{nnBstr([]byte{}, -1), nnMap(nil, -1), nnBstr(ob, -1)}, 0))
+			}
+		}
+		csVal = nnArray(elems, vWidth("listw", uint64(listLen)))
 	}
 	unprot := nnMap([]*vNodeT{nnInt(0, 11, vWidth("cskw", 11)), csVal}, vWidth("umw", 1))
 	body := nnArray([]*vNodeT{pprot, unprot, nnBstr(payload, vWidth("plw", uint64(len(payload)))), nnBstr(psig, vWidth("psigw", uint64(len(psig))))}, 0)
@@ -244,11 +261,11 @@ func H_C07_countersignature() {
 	var got *Countersignature
 	if list {
 		l, ok := v.([]*Countersignature)
-		vAssert("countersignature: a list decodes to typed objects", ok && len(l) == 1)
-		if !ok || len(l) != 1 {
+		vAssert("countersignature: a list decodes to typed objects", ok && len(l) == listLen)
+		if !ok || len(l) != listLen {
 			return
 		}
-		got = l[0]
+		got = l[pos]
 	} else {
 		c, ok := v.(*Countersignature)
 		vAssert("countersignature: decodes to a typed object", ok)
